@@ -12,6 +12,7 @@ PLANS = {"quick": [(1, "SUPER_", 2000, 12), (1, "CHR", 500, 12), (2, "SUPER_", 2
 
 
 PV_CAP = {"quick": 1500, "thorough": 10000}
+SIM = {"quick": "num=150", "thorough": None}      # quick tier: seeded random edit scripts (TLC simulation) instead of the exhaustive graph
 
 
 def export(run, haps, prefix, n, maxchr, k, firsthap="HAP1"):
@@ -56,18 +57,19 @@ def main(tier, replay=None):
     for i, s in enumerate(scen, 1):
         s["tid"] = i
     traces = C.pmap("harness.remap_engine", "run_scenario", scen, chunk=200)
-    if tier == "thorough":
-        # the derived reports (Reports.tla, model-drift clauses) are judged on every fifth trace only: their predicates cost TLC ten times what C10's do
-        for t in traces:
-            if t["tid"] % 5:
-                t.pop("report", None)
+    # the derived reports (Reports.tla, model-drift clauses) are judged on every third (thorough: fifth) trace only: their predicates cost TLC
+    # several times what C10's own do
+    for t in traces:
+        if t["tid"] % (5 if tier == "thorough" else 3):
+            t.pop("report", None)
     # uniqueness of names within an assembly also on maps with real geometry: tagged PretextView-model maps (cut and moved pieces, Target mode,
     # sequence absent from the map) of plain and of haplotype-resolved assemblies
     rng = random.Random(C.seed() + 3)
     pv = []
     for style in ("plain", "hap"):
         for tn, td in R.TEXELS[tier]:
-            objs, r = R.export(run, f"pv-tagged-{style}-{tn}-{td}", tn, td, "tagged", 3, 0 if tier == "quick" else 1, 0, cap=PV_CAP[tier], rng=rng, style=style)
+            objs, r = R.export(run, f"pv-tagged-{style}-{tn}-{td}", tn, td, "tagged", 3, 0 if tier == "quick" else 1, 0, cap=PV_CAP[tier], rng=rng, style=style,
+                               simulate=SIM[tier], workers=1 if SIM[tier] else 8)
             for o in objs:
                 o["cls"] = "pretextview-tagged/" + style
             pv += objs
@@ -76,6 +78,18 @@ def main(tier, replay=None):
     for i, s in enumerate(pv, len(scen) + 1):
         s["tid"] = i
     pvt = C.pmap("harness.remap_engine", "run_scenario", pv, chunk=300)
+    # ... and the files the command line tool writes for tagged maps of three haplotypes (Primary mode merges haplotypes into one file)
+    pc = []
+    for tn, td in R.TEXELS[tier][:2]:
+        objs, r = R.export(run, f"pv-tagged-hap3-cli-{tn}-{td}", tn, td, "tagged", 3, 0, 0, cap=PV_CAP[tier] // 2, rng=rng, style="hap3", simulate=SIM[tier], workers=1 if SIM[tier] else 8)
+        for o in objs:
+            o.update(cls="pretextview-tagged/hap3", root=str(run.sub("clir")))
+        pc += objs
+        exports.append({"haplotypes": 3, "prefix": "SUPER_", "max_chromosomes": 0, "scenarios": len(objs), "model_states": r["distinct"],
+                        "model_transitions": r["generated"], "wall_s": r["wall_s"], "model": "PretextView.tla tagged, through the CLI"})
+    for i, s in enumerate(pc, len(scen) + len(pv) + 1):
+        s["tid"] = i
+    pvt += C.pmap("harness.remap_engine", "run_scenario_cli", pc, chunk=100)
     jr = R.judge(run, traces, ["C10", "MODEL"])
     jr2 = R.judge(run, pvt, ["C10"], label="RemapTrace-pv")      # the PretextView-model maps: C10's uniqueness clause only
     traces += pvt
